@@ -225,6 +225,33 @@ func execC20(sc *core.Scenario) *core.Result {
 	sr0, serr0, abort0 := runStore(traceDisk, nil)
 	res.Sched = sr0
 	trace := append([]simos.Event{}, traceDisk.Trace...)
+	if abort0 == "" && serr0 == nil && !sr0.Hang {
+		// the store that was NOT interrupted: on top of whatever earlier crashed stores left behind,
+		// a store that reports success must be retrievable exactly (no tail of an older attempt mixed in)
+		traceDisk.ResetPlan()
+		traceDisk.Quiet = true
+		simos.Mount(traceDisk)
+		envT := &env{sp: sp, res: res, disk: traceDisk, docs: docs}
+		envT.fs = &storage.FileSystem{Options: storage.FileSystemOptions{Path: sp.Path}}
+		got, gerr, gabort, _ := envT.retrieve(id, "fs")
+		keep := st.NoClobber && (oldDoc != nil || len(alsoAllowed) > 0)
+		switch {
+		case gabort != "":
+			res.Violate("crash:none:retrieve-"+gabort, "Retrieve after an uninterrupted store ended in "+gabort)
+		case keep:
+			// no-clobber on an existing (or possibly existing) entry: nothing to demand of the new document
+		case gerr != nil || !proto.Equal(got, newDoc):
+			cls := "error"
+			if gerr == nil {
+				cls = "mixed-or-wrong-doc"
+			}
+			if len(alsoAllowed) > 0 {
+				res.Violate("crash:after-earlier-crash:"+cls, fmt.Sprintf("an earlier store of %q was killed; the next store reported success but Retrieve gives %s (err=%v): what the killed store left behind leaked into the new entry", short(id), cls, gerr))
+			} else {
+				res.Violate("crash:none:"+cls, fmt.Sprintf("an uninterrupted store of %q reported success but Retrieve gives %s (err=%v)", short(id), cls, gerr))
+			}
+		}
+	}
 	if abort0 != "" {
 		res.Violate("crash:none:store-"+abort0, "the store itself ended in "+abort0+" without any crash")
 	}
